@@ -948,9 +948,17 @@ def run(ctx):
         while len(cases) < n:
             cases.append(gen_script(ctx.rng, ctx.tier))
     t0 = time.time()
+    # in batches: once three runs have crashed / spun / blocked the search stops (each of them is a concrete
+    # counterexample already; a change that makes the server spin must cost minutes, not hours)
+    results, stopped = [], False
+    jobs = [(h_noalign if uses_ultra(sc) else h, d, sc, meta, ctx.driver_ok, h_noalign) for sc, meta in cases]
     with ProcessPoolExecutor(max_workers=14) as ex:
-        results = list(ex.map(process, [(h_noalign if uses_ultra(sc) else h, d, sc, meta, ctx.driver_ok, h_noalign)
-                                        for sc, meta in cases], chunksize=1))
+        for b0 in range(0, len(jobs), 56):
+            results += list(ex.map(process, jobs[b0:b0 + 56], chunksize=1))
+            if sum(1 for r in results for f in r["fails"] if f["kind"] == "crash" and not f.get("finding")) >= 3:
+                stopped = True
+                break
+    cases = cases[:len(results)]
     fails, stats, samples = [], {}, []
     dist = {"enc": {}, "fmt": {}, "server_bpp": {}, "geom": {"big": 0, "special": 0, "other": 0}}
     nrects = npix = lean_rects = model_rects = nontrivial = 0
